@@ -59,7 +59,8 @@ def register2(reg):
 
     def leaf(ok, frame_ok, result_ok, frame_fail):
         return dict(
-            ensures=[('property', ok), ('property', f'{S} == {OS}[:-1] + [{frame_ok}]'), ('property', result_ok)],
+            ensures=[('property', ok), ('property', f'{S} == {OS}[:-1] + [{frame_ok}]'), ('property', result_ok),
+                     f'{TOP}.cursor.pos >= {OTOP}.cursor.pos'],  # what PARSE assumes of every parse function
             raises={'FailedParse': [f'not ({ok})', f'{S} == {OS}[:-1] + [{frame_fail}]']})
 
     contract(reg, f'{K}:ParserCore.next_token#none', ALL + ['C09'], {'self': 'Ctx', 'ri': 'None'}, ret='None', requires=REQ,
@@ -78,7 +79,8 @@ def register2(reg):
                     f'spec_appended(spec_at({OTOP}, min({OTOP}.cursor.len, {RE})), uf_re_token({OTOP}.cursor.textstr, {OTOP}.cursor.pos, pattern))',
                     f'result == uf_re_token({OTOP}.cursor.textstr, {OTOP}.cursor.pos, pattern)', OTOP))
     contract(reg, f'{X}:ParseContext.void', ALL + ['C09'], {'self': 'Ctx'}, ret='Val', requires=REQ,
-             ensures=[('property', f'{S} == {OS}[:-1] + [spec_at({OTOP}, {WS})]'), ('property', 'result == ()')])
+             ensures=[('property', f'{S} == {OS}[:-1] + [spec_at({OTOP}, {WS})]'), ('property', 'result == ()'),
+                      f'{TOP}.cursor.pos >= {OTOP}.cursor.pos'])
     contract(reg, f'{X}:ParseContext.fail', ALL, {'self': 'Ctx'}, ret='None', requires=REQ,
              ensures=[('property', 'False')],
              raises={'FailedParse': [f'{S} == {OS}[:-1] + [spec_at({OTOP}, {WS})]']})
@@ -96,6 +98,7 @@ def register2(reg):
     SAMEAS = dict(
         ensures=[('property', f'{S} == {OS}[:-1] + [out_frame(exp, {OTOP})]'), ('property', f'out_ok(exp, {OTOP})'),
                  ('property', f'result == out_ret(exp, {OTOP})'), f'spec_same_text({OTOP}, {TOP})',
+                 f'{TOP}.cursor.pos >= {OTOP}.cursor.pos',
                  f'{TOP}.cutseen == ({OTOP}.cutseen or out_cut(exp, {OTOP}))'],
         raises={'FailedParse': [f'{S} == {OS}[:-1] + [out_fail_frame(exp, {OTOP})]', f'not out_ok(exp, {OTOP})',
                                 f'spec_same_text({OTOP}, {TOP})',
@@ -126,7 +129,8 @@ def register2(reg):
     contract(reg, f'{X}:ParseContext.isolate', ALL, {'self': 'Ctx', 'exp': 'func:PARSE'}, ret='Val', requires=REQ,
              ensures=[('property', f'{S} == {OS}[:-1] + [spec_with_ast(spec_goto({OTOP}, {F}.cursor.pos), {F}.ast)]'),
                       ('property', f'out_ok(exp, {FRESH})'),
-                      ('property', f'result == spec_cstfinal({F}.cst)'), f'spec_same_text({OTOP}, {TOP})'],
+                      ('property', f'result == spec_cstfinal({F}.cst)'), f'spec_same_text({OTOP}, {TOP})',
+                      f'{TOP}.cursor.pos >= {OTOP}.cursor.pos'],
              raises={'FailedParse': [f'top_only({S}, {OS})', f'not out_ok(exp, {FRESH})',
                                      f'spec_same_text({OTOP}, {TOP})',
                                      f'{TOP}.cutseen == ({OTOP}.cutseen or out_cut(exp, {FRESH}))']},
@@ -152,10 +156,12 @@ def register3(reg):
         fun_inv = [f'{REP(TOP)} == {REPF}']
         fun_post = [('property', f'{TOP} == {REPF}'), ('property', f'not ({FAILS})')]
         fun_fail = [('property', FAILS), ('property', f'{TOP} == spec_with_cut({REPF})')]
-        contract(reg, f'{X}:ParseContext.repeat{variant}', ALL,
+        contract(reg, f'{X}:ParseContext.repeat{variant}', ALL + ['C08'],
                  {'self': 'Ctx', 'exp': 'func:PARSE', 'prefix': pfx, 'omitsep': 'bool'}, ret='None',
                  requires=REQ + [f'spec_islist({TOP}.cst)'], defaults={'prefix': None, 'omitsep': False},
                  invariants={0: SHAPE + [f'{TOP}.cutseen == {OTOP}.cutseen', f'spec_islist({TOP}.cst)'] + fun_inv},
+                 # C08 (no input makes a parse hang): every completed iteration has consumed input, with or without a separator
+                 decreases={0: f'self.textlen - {TOP}.cursor.pos'},
                  ensures=[*SHAPE, ('property', f'{TOP}.cutseen == {OTOP}.cutseen'), f'spec_islist({TOP}.cst)',
                           # C05 "a join commits after each separator": the repetition ends normally only where the separator
                           # itself does not match (once it matched, a failing element makes the repetition fail)
